@@ -289,10 +289,19 @@ def validate(w, sub, tla, cfg, tracefile, timeout=1800, env=None):
         if m:
             (viols if m.group(1) == "VIOL" else drifts).append((int(m.group(2)), m.group(3)))
     gen, dist = parse_states(out)
+    w.partial = None
     if rc != 0 or "No error has been found" not in out or dist not in (nlines, nlines + 1):
         log(out[-5000:])
-        raise Inconclusive("trace validation %s did not consume the whole trace (rc=%d, %d of %d lines): "
-                           "evaluation error or malformed trace, no verdict" % (tla, rc, dist, nlines))
+        why = ("trace validation %s did not consume the whole trace (rc=%d, %d of %d lines): "
+               "evaluation error or malformed trace" % (tla, rc, dist, nlines))
+        # operators that had already failed on real steps before TLC stopped are decided; the rest of the trace is not.
+        # judge() reports them; if none of them is a new violation of this property the run stays without verdict (exit 2)
+        viols = [(k, n) for (k, n) in viols if k <= max(dist, 1)]
+        if not viols:
+            raise Inconclusive(why + ", no verdict")
+        w.partial = why
+        log("NOTE " + why + "; %d operator failures were decided before that" % len(viols))
+        return viols, [(k, n) for (k, n) in drifts if k <= max(dist, 1)], max(dist, 1)
     log("[trace] %s: %d lines validated in %.1fs, %d VIOL, %d DRIFT" % (tla, nlines, dt, len(viols), len(drifts)))
     return viols, drifts, nlines
 
@@ -348,6 +357,15 @@ def write_evidence(w, level, coverage, assumptions, violations):
 
 def judge(w, pid, trace, behaviours, viols, bkey="b", prefix=None):
     """Turn VIOL lines into KNOWN-FINDING / VIOLATION output. Returns number of new violations."""
+    new = _judge(w, pid, trace, behaviours, viols, bkey, prefix)
+    if getattr(w, "partial", None):
+        why, w.partial = w.partial, None
+        if new == 0:
+            raise Inconclusive(why + ", and nothing decided before that is a new violation of this property: no verdict")
+    return new
+
+
+def _judge(w, pid, trace, behaviours, viols, bkey="b", prefix=None):
     findings = known_findings(pid)
     if prefix:
         viols = [(k, n) for (k, n) in viols if n.startswith(prefix)]
